@@ -4,6 +4,11 @@ import (
 	"bytes"
 	"encoding/json"
 	"fmt"
+	"github.com/dominant-strategies/go-quai/params"
+	"github.com/dominant-strategies/go-quai/rlp"
+	"github.com/dominant-strategies/go-quai/trie"
+	"math/big"
+	"strings"
 	"testing"
 
 	"github.com/dominant-strategies/go-quai/common"
@@ -59,6 +64,148 @@ func woRoundTrip(b *types.WorkObject, view types.WorkObjectView, loc common.Loca
 	return nil
 }
 
+// txFieldDiff names the first field in which two transactions differ ("" if none): equality of the decoded object is
+// judged field by field, not through the hash (the hash is computed from an encoding, so a field the encoder drops would
+// drop out of both sides).
+func txFieldDiff(a, b *types.Transaction) string {
+	ptr := func(x, y interface{ Bytes() []byte }, xnil, ynil bool) bool {
+		if xnil || ynil {
+			return xnil == ynil
+		}
+		return bytes.Equal(x.Bytes(), y.Bytes())
+	}
+	bigEq := func(x, y *big.Int) bool {
+		if x == nil || y == nil {
+			return (x == nil || x.Sign() == 0) && (y == nil || y.Sign() == 0)
+		}
+		return x.Cmp(y) == 0
+	}
+	switch {
+	case a.Type() != b.Type():
+		return "type"
+	case a.Type() != types.ExternalTxType && !bigEq(a.ChainId(), b.ChainId()):
+		return "chainId"
+	case !bytes.Equal(a.Data(), b.Data()):
+		return "data"
+	}
+	wn := func(t *types.Transaction) []byte {
+		if t.WorkNonce() == nil {
+			return nil
+		}
+		n := *t.WorkNonce()
+		return append([]byte{1}, n[:]...)
+	}
+	if a.Type() != types.ExternalTxType {
+		switch {
+		case !ptr(a.ParentHash(), b.ParentHash(), a.ParentHash() == nil, b.ParentHash() == nil):
+			return "parentHash"
+		case !ptr(a.MixHash(), b.MixHash(), a.MixHash() == nil, b.MixHash() == nil):
+			return "mixHash"
+		case !bytes.Equal(wn(a), wn(b)):
+			return "workNonce"
+		}
+	}
+	switch a.Type() {
+	case types.QuaiTxType, types.ExternalTxType:
+		switch {
+		case a.Gas() != b.Gas():
+			return "gas"
+		case !bigEq(a.Value(), b.Value()):
+			return "value"
+		case !ptr(a.To(), b.To(), a.To() == nil, b.To() == nil):
+			return "to"
+		case len(a.AccessList()) != len(b.AccessList()):
+			return "accessList"
+		}
+		for i, t := range a.AccessList() {
+			if !t.Address.Equal(b.AccessList()[i].Address) || len(t.StorageKeys) != len(b.AccessList()[i].StorageKeys) {
+				return "accessList"
+			}
+			for j, k := range t.StorageKeys {
+				if k != b.AccessList()[i].StorageKeys[j] {
+					return "accessList"
+				}
+			}
+		}
+		if a.Type() == types.QuaiTxType {
+			av, ar, as := a.GetEcdsaSignatureValues()
+			bv, br, bs := b.GetEcdsaSignatureValues()
+			switch {
+			case a.Nonce() != b.Nonce():
+				return "nonce"
+			case !bigEq(a.GasPrice(), b.GasPrice()):
+				return "gasPrice"
+			case !bigEq(av, bv) || !bigEq(ar, br) || !bigEq(as, bs):
+				return "signature"
+			}
+		} else {
+			switch {
+			case a.OriginatingTxHash() != b.OriginatingTxHash():
+				return "originatingTxHash"
+			case a.ETXIndex() != b.ETXIndex():
+				return "etxIndex"
+			case !a.ETXSender().Equal(b.ETXSender()):
+				return "sender"
+			case a.EtxType() != b.EtxType():
+				return "etxType"
+			}
+		}
+	case types.QiTxType:
+		if len(a.TxIn()) != len(b.TxIn()) || len(a.TxOut()) != len(b.TxOut()) {
+			return "txIn/txOut count"
+		}
+		for i, in := range a.TxIn() {
+			o := b.TxIn()[i]
+			if in.PreviousOutPoint != o.PreviousOutPoint || !bytes.Equal(in.PubKey, o.PubKey) {
+				return "txIn"
+			}
+		}
+		for i, out := range a.TxOut() {
+			o := b.TxOut()[i]
+			if out.Denomination != o.Denomination || !bytes.Equal(out.Address, o.Address) || !bigEq(out.Lock, o.Lock) {
+				return "txOut"
+			}
+		}
+		if (a.GetSchnorrSignature() == nil) != (b.GetSchnorrSignature() == nil) || (a.GetSchnorrSignature() != nil && !bytes.Equal(a.GetSchnorrSignature().Serialize(), b.GetSchnorrSignature().Serialize())) {
+			return "signature"
+		}
+	}
+	return ""
+}
+
+// txPresenceVariants returns copies of a Quai or Qi transaction with every presence combination of the optional work
+// fields (the signature is kept: the copies are well-formed objects, not valid spends).
+func txPresenceVariants(tx *types.Transaction, salt byte) []*types.Transaction {
+	var out []*types.Transaction
+	for combo := 1; combo < 8; combo++ {
+		var ph, mh *common.Hash
+		var wn *types.BlockNonce
+		if combo&1 != 0 {
+			h := common.Hash{0: 0xa1, 31: salt}
+			ph = &h
+		}
+		if combo&2 != 0 {
+			h := common.Hash{0: 0xb2, 30: salt}
+			mh = &h
+		}
+		if combo&4 != 0 {
+			n := types.BlockNonce{0x01, 0x02, 0x03, 0x04, 0x05, 0x06, 0x07, salt}
+			wn = &n
+		}
+		switch in := tx.Inner().(type) {
+		case *types.QuaiTx:
+			c := *in
+			c.ParentHash, c.MixHash, c.WorkNonce = ph, mh, wn
+			out = append(out, types.NewTx(&c))
+		case *types.QiTx:
+			c := *in
+			c.ParentHash, c.MixHash, c.WorkNonce = ph, mh, wn
+			out = append(out, types.NewTx(&c))
+		}
+	}
+	return out
+}
+
 func txRoundTrips(tx *types.Transaction, loc common.Location) error {
 	pb, err := tx.ProtoEncode()
 	if err != nil {
@@ -75,6 +222,9 @@ func txRoundTrips(tx *types.Transaction, loc common.Location) error {
 	}
 	if out.Hash() != tx.Hash() {
 		return fmt.Errorf("proto: hash %x -> %x", tx.Hash().Bytes()[:6], out.Hash().Bytes()[:6])
+	}
+	if d := txFieldDiff(tx, out); d != "" {
+		return fmt.Errorf("proto: field %s differs after the round trip", d)
 	}
 	pb3, _ := out.ProtoEncode()
 	raw2, _ := proto.MarshalOptions{Deterministic: true}.Marshal(pb3)
@@ -93,6 +243,9 @@ func txRoundTrips(tx *types.Transaction, loc common.Location) error {
 	if back.Hash() != tx.Hash() {
 		return fmt.Errorf("json: hash %x -> %x", tx.Hash().Bytes()[:6], back.Hash().Bytes()[:6])
 	}
+	if d := txFieldDiff(tx, &back); d != "" {
+		return fmt.Errorf("json: field %s differs after the round trip", d)
+	}
 	js2, _ := json.Marshal(&back)
 	if !bytes.Equal(js, js2) {
 		return fmt.Errorf("json: re-encoding differs")
@@ -103,7 +256,13 @@ func txRoundTrips(tx *types.Transaction, loc common.Location) error {
 func TestC14(t *testing.T) {
 	chainProperty(t, "C14", func(r *Runner, fail func(class, witness, detail string)) Hooks {
 		seenHashes := map[common.Hash]string{}
+		bloomFinding := ""
 		return Hooks{
+			End: func(w *World) {
+				if bloomFinding != "" {
+					fail("disk-roundtrip", "object=receipts receipt-root etx-log-bloom-unset", bloomFinding)
+				}
+			},
 			AfterHead: func(w *World, n *Node, bi *BlockInfo, reorg bool) {
 				if reorg {
 					return
@@ -174,6 +333,22 @@ func TestC14(t *testing.T) {
 						return
 					}
 					simkit.Global.Inc("tx_roundtrips")
+					if i%3 == int(bi.Number%3) && tx.Type() != types.ExternalTxType {
+						vs := txPresenceVariants(tx, byte(i))
+						hashes := map[common.Hash]int{tx.Hash(): -1}
+						for vi, v := range vs {
+							if err := txRoundTrips(v, LocZone); err != nil {
+								fail("wire-roundtrip", fmt.Sprintf("object=tx type=%d work-fields=%03b", tx.Type(), vi+1), fmt.Sprintf("block #%d item %d with work fields present %03b (parent hash, mix hash, work nonce): %v", bi.Number, i, vi+1, err))
+								return
+							}
+							if prev, dup := hashes[v.Hash()]; dup {
+								fail("hash-identity", fmt.Sprintf("object=tx type=%d work-fields", tx.Type()), fmt.Sprintf("block #%d item %d: the copies with work-field presence %03b and %03b share the hash %x", bi.Number, i, prev+1, vi+1, v.Hash().Bytes()[:6]))
+								return
+							}
+							hashes[v.Hash()] = vi
+							simkit.Global.Inc("tx_presence_variants_roundtripped")
+						}
+					}
 					simkit.Global.Seen("txkind", fmt.Sprintf("%d/%v", tx.Type(), func() any {
 						if tx.Type() == types.ExternalTxType {
 							return tx.EtxType()
@@ -184,6 +359,10 @@ func TestC14(t *testing.T) {
 				// receipts read back from disk match the block
 				if rs := n.Zone().GetReceiptsByHash(bi.Hash); len(rs) != len(blk.Transactions()) {
 					fail("disk-roundtrip", "object=receipts count", fmt.Sprintf("block #%d has %d transactions, %d receipts read back", bi.Number, len(blk.Transactions()), len(rs)))
+					return
+				}
+				if d := checkStoredReceipts(n, blk, bi, &bloomFinding); d != "" {
+					fail("disk-roundtrip", "object=receipts "+strings.SplitN(d, ":", 2)[0], fmt.Sprintf("block #%d: %s", bi.Number, d))
 					return
 				}
 				// identity: no two distinct headers of this run share a hash
@@ -204,4 +383,95 @@ func TestC14(t *testing.T) {
 			},
 		}
 	})
+}
+
+// checkStoredReceipts reads the block's receipts through the database path (rawdb.ReadReceipts, which re-derives the
+// contextual fields) and checks them against the block: consensus fields hash to the header's receipt root, contextual
+// fields name the right transaction and block, log indices count block-wide, and each receipt survives its RLP and
+// storage encodings. It returns "" or "<field>: detail".
+func checkStoredReceipts(n *Node, blk *types.WorkObject, bi *BlockInfo, bloomFinding *string) string {
+	rs := rawdb.ReadReceipts(n.DBs[common.ZONE_CTX], bi.Hash, bi.Number, params.Blake3PowLocalChainConfig)
+	if rs == nil {
+		if len(blk.Transactions()) == 0 {
+			return ""
+		}
+		return "missing: rawdb.ReadReceipts returns nothing"
+	}
+	if len(rs) != len(blk.Transactions()) {
+		return fmt.Sprintf("count: %d receipts for %d transactions", len(rs), len(blk.Transactions()))
+	}
+	if root := types.DeriveSha(rs, trie.NewStackTrie(nil)); root != blk.Header().ReceiptHash() {
+		// attribution: the processor builds the receipts of inbound conversion / coinbase ETXs with a log but without a
+		// bloom; the storage form does not keep the bloom and recomputes it from the logs when read back
+		cp := make(types.Receipts, len(rs))
+		n := 0
+		for i, r := range rs {
+			c := *r
+			if c.Type == types.ExternalTxType && len(c.Logs) > 0 {
+				c.Bloom = types.Bloom{}
+				n++
+			}
+			cp[i] = &c
+		}
+		if n > 0 && types.DeriveSha(cp, trie.NewStackTrie(nil)) == blk.Header().ReceiptHash() {
+			if *bloomFinding == "" { // reported once, at the end of the run: the remaining checks still apply
+				*bloomFinding = fmt.Sprintf("block #%d: receipts read back hash to %x, header commits to %x; the header's root is that of the same receipts with an empty bloom on the %d inbound-ETX receipts that carry a log", bi.Number, root, blk.Header().ReceiptHash(), n)
+			}
+		} else {
+			return fmt.Sprintf("receipt-root: receipts read back hash to %x, header commits to %x", root, blk.Header().ReceiptHash())
+		}
+	}
+	logIndex, withLogs := uint(0), 0
+	var cum uint64
+	for i, r := range rs {
+		tx := blk.Transactions()[i]
+		switch {
+		case r.TxHash != tx.Hash():
+			return fmt.Sprintf("tx-hash: receipt %d names %x, transaction is %x", i, r.TxHash, tx.Hash())
+		case r.Type != tx.Type():
+			return fmt.Sprintf("type: receipt %d has type %d, transaction %d", i, r.Type, tx.Type())
+		case r.BlockHash != bi.Hash || r.BlockNumber == nil || r.BlockNumber.Uint64() != bi.Number || r.TransactionIndex != uint(i):
+			return fmt.Sprintf("position: receipt %d says block %x #%v index %d", i, r.BlockHash.Bytes()[:4], r.BlockNumber, r.TransactionIndex)
+		case r.CumulativeGasUsed < cum:
+			return fmt.Sprintf("cumulative-gas: receipt %d cumulative gas %d below its predecessor's %d", i, r.CumulativeGasUsed, cum)
+		}
+		cum = r.CumulativeGasUsed
+		if len(r.Logs) > 0 {
+			withLogs++
+		}
+		for j, l := range r.Logs {
+			if l.Index != logIndex {
+				return fmt.Sprintf("log-index: log %d of receipt %d has index %d, it is log number %d of the block", j, i, l.Index, logIndex)
+			}
+			if l.TxHash != tx.Hash() || l.TxIndex != uint(i) || l.BlockHash != bi.Hash || l.BlockNumber != bi.Number {
+				return fmt.Sprintf("log-position: log %d of receipt %d says tx %x index %d block %x #%d", j, i, l.TxHash.Bytes()[:4], l.TxIndex, l.BlockHash.Bytes()[:4], l.BlockNumber)
+			}
+			logIndex++
+		}
+		// consensus RLP form
+		enc, err := rlp.EncodeToBytes(r)
+		if err != nil {
+			return fmt.Sprintf("rlp: receipt %d does not encode: %v", i, err)
+		}
+		var dec types.Receipt
+		if err := rlp.DecodeBytes(enc, &dec); err != nil {
+			return fmt.Sprintf("rlp: receipt %d does not decode: %v", i, err)
+		}
+		if dec.Status != r.Status || dec.CumulativeGasUsed != r.CumulativeGasUsed || dec.Bloom != r.Bloom || len(dec.Logs) != len(r.Logs) || len(dec.OutboundEtxs) != len(r.OutboundEtxs) {
+			return fmt.Sprintf("rlp: receipt %d decodes to status %d gas %d logs %d etxs %d, was status %d gas %d logs %d etxs %d", i, dec.Status, dec.CumulativeGasUsed, len(dec.Logs), len(dec.OutboundEtxs), r.Status, r.CumulativeGasUsed, len(r.Logs), len(r.OutboundEtxs))
+		}
+		if enc2, _ := rlp.EncodeToBytes(&dec); !bytes.Equal(enc, enc2) {
+			return fmt.Sprintf("rlp: receipt %d re-encodes differently", i)
+		}
+		for k, e := range r.OutboundEtxs {
+			if dec.OutboundEtxs[k].Hash() != e.Hash() {
+				return fmt.Sprintf("rlp: outbound ETX %d of receipt %d changes hash", k, i)
+			}
+		}
+		simkit.Global.Inc("receipt_roundtrips")
+	}
+	if withLogs >= 2 {
+		simkit.Global.Inc("probe.block_with_logs_in_two_receipts")
+	}
+	return ""
 }
